@@ -250,6 +250,7 @@ func (e *NotExpr) Check(ctx *CheckCtx) error {
 }
 
 func (e *FunctionCallExpr) Check(ctx *CheckCtx) error {
+	simYield("checker.call")
 	_, ok := e.Name.(*NameExpr)
 	if !ok {
 		return NewSyntaxError(e.Name.GetPos(), "Invalid function name")
